@@ -83,6 +83,19 @@ def requests_for(app, rng, g, want_success=0.75):
         r = ops.apply_real(app, op)
         app.restore(snap)
         out.append((op, r.status))
+    # scripted additions: moves of a provider that HAS descendants (its row and the root pointers of the whole subtree
+    # change together) - adoption of a root with children, re-parenting below another tree, un-parenting of a child
+    U = gen.RPS
+    if all(u in v.rps for u in U[:3]) and v.rps[U[1]]['parent'] == U[0]:
+        moves = [{'op': 'rp_update', 'mv': 39, 'uuid': U[0], 'name': v.rps[U[0]]['name'], 'has_parent': True,
+                  'parent': U[2] if v.rps[U[2]]['root'] != v.rps[U[0]]['root'] else None},
+                 {'op': 'rp_update', 'mv': 14, 'uuid': U[0], 'name': v.rps[U[0]]['name'], 'has_parent': True,
+                  'parent': U[2] if v.rps[U[0]]['parent'] is None and v.rps[U[2]]['root'] != v.rps[U[0]]['root'] else v.rps[U[0]]['parent']},
+                 {'op': 'rp_update', 'mv': 39, 'uuid': U[1], 'name': v.rps[U[1]]['name'], 'has_parent': True, 'parent': None}]
+        for op in moves:
+            r = ops.apply_real(app, op)
+            app.restore(snap)
+            out.append((op, r.status))
     # scripted additions: an EXISTING consumer that holds allocations is handed to another project / user / consumer type
     # by each of the three allocation-writing routes while its allocations stay as they are (DESIGN appendix C,
     # "project/user/type change"); a crash or fault must not leave the attribute change without the rest of the write
